@@ -1,5 +1,5 @@
 (** C03 - shadowing is reported exactly when a visible same-name variable exists. Statements only. *)
-From Selene Require Import Scope.Interp Scope.Balanced Scope.Spec Scope.Zones Lints.ScopeLints.
+From Selene Require Import Scope.Interp Scope.Balanced Scope.Spec Scope.Zones Lints.ScopeLints Scope.ShadowInv.
 
 (** the lint reports exactly the variables whose `shadowed` is set (minus ignored names and `...`),
     with the shadowed variable's declaring identifier as secondary label *)
@@ -19,6 +19,26 @@ Proof.
     rewrite Es, E1, E2, En. left. reflexivity.
 Qed.
 Print Assumptions C03_report_iff_shadowed.
+
+(** on every run, the variable recorded as shadowed is an earlier declaration (arena order) of the same name *)
+Theorem C03_shadowed_is_earlier_same_name : forall chunk s,
+  scope_manager chunk = Some s ->
+  forall i v sid, nth_error (vars s) i = Some v -> v_shadowed v = Some sid ->
+    (N.to_nat sid < i)%nat /\ exists sv, nth_error (vars s) (N.to_nat sid) = Some sv /\ t_name (v_tok sv) = t_name (v_tok v).
+Proof. exact scope_manager_shadow. Qed.
+Print Assumptions C03_shadowed_is_earlier_same_name.
+
+(** hence every shadowing diagnostic's two labels are declarations of one name, the secondary one earlier *)
+Theorem C03_report_same_name : forall chunk s d sh,
+  scope_manager chunk = Some s -> In (d, sh) (shadowing_report s) ->
+  exists i j v sv, (j < i)%nat /\ nth_error (vars s) i = Some v /\ nth_error (vars s) j = Some sv /\
+    t_name (v_tok sv) = t_name (v_tok v) /\ d = t_range (v_tok v) /\ sh = t_range (v_tok sv).
+Proof.
+  intros chunk s d sh Hs Hin. apply C03_report_iff_shadowed in Hin as (v & sid & sv & Hv & Es & En & _ & _ & -> & ->).
+  apply In_nth_error in Hv as [i Hi]. destruct (scope_manager_shadow chunk s Hs i v sid Hi Es) as (Hlt & sv' & Hsv' & Hn).
+  rewrite En in Hsv'. injection Hsv' as <-. exists i, (N.to_nat sid), v, sv. repeat split; auto.
+Qed.
+Print Assumptions C03_report_same_name.
 
 Theorem C03_walk_balanced : forall chunk, depth_after 1%nat (events_of_chunk chunk) = Some 1%nat.
 Proof. exact chunk_balanced. Qed.
